@@ -41,7 +41,7 @@ fn examples() -> Vec<(String, Vec<u8>)> {
 /// size of the enumerated truncation space: every cut point of every example, with and without
 /// a newline re-appended
 pub fn truncation_space() -> u64 {
-    SCALING_FAMILIES.len() as u64 + parser_enum_cases() + extreme_operand_cases() + examples().iter().map(|(_, b)| (b.len() as u64 + 1) * 2).sum::<u64>()
+    SCALING_FAMILIES.len() as u64 + parser_enum_cases() + extreme_operand_cases() + extreme_addressing_cases() + examples().iter().map(|(_, b)| (b.len() as u64 + 1) * 2).sum::<u64>()
 }
 
 /// size of the enumerated single-byte replacement space (thorough tier)
@@ -366,6 +366,35 @@ fn extreme_operand_program(k: usize) -> String {
     format!("start:\nmov dx, {}\nmov ax, {}\nmov bx, {}\nmov word [5], bx\n{}\nprint reg\nprint flags\n", dx, ax, bx, op)
 }
 
+const XA_OPS: [&str; 31] = [
+    "lea si, word [bx]", "lea si, word [bx, -4]", "lea si, word [bx, si, 3]", "lea si, word [bp]", "lea si, word [bp, di, -1]", "lea dx, word es[di]", "lea dx, word ss[bx]",
+    "lea dx, word cs[si]", "lea dx, word [0xFFFF]", "lea dx, word es[0xFFFF]", "mov ax, word [bx]", "mov word [bx, si, 3], ax", "mov al, byte es[di]", "inc byte [bp]",
+    "shl word [bx], 1", "mul byte [bx]", "xchg ax, word [bx]", "add word [bx, -4], 1", "movs byte", "movs word", "stos word", "lods word", "cmps byte", "scas word", "xlat",
+    "push ax", "pop ax", "pushf", "popf", "rep movs byte", "call f",
+];
+/// (DS, ES, SS)
+const XA_SEGS: [(u16, u16, u16); 6] = [(0, 0, 0), (0x1000, 0, 0), (0x1000, 0x2000, 0x0001), (0xF000, 0xFFFF, 0xFFFF), (0xFFFF, 0, 0x0001), (0xFFFF, 0xFFFF, 0xFFFF)];
+const XA_REGS: [u16; 5] = [0, 2, 0x7FFF, 0xFFFE, 0xFFFF];
+const XA_IDX: [u16; 2] = [0, 0xFFFF];
+
+pub fn extreme_addressing_cases() -> u64 {
+    (XA_OPS.len() * XA_SEGS.len() * XA_REGS.len() * XA_IDX.len()) as u64
+}
+
+/// one memory-touching (or address-forming) instruction with segments and pointers at the edges
+fn extreme_addressing_program(k: usize) -> String {
+    let op = XA_OPS[k % XA_OPS.len()];
+    let k = k / XA_OPS.len();
+    let (ds, es, ss) = XA_SEGS[k % XA_SEGS.len()];
+    let k = k / XA_SEGS.len();
+    let r = XA_REGS[k % XA_REGS.len()];
+    let x = XA_IDX[(k / XA_REGS.len()) % XA_IDX.len()];
+    format!(
+        "def f {{ inc ax }}\nstart:\nmov ax, {}\nmov es, ax\nmov ax, {}\nmov ss, ax\nmov ax, {}\nmov ds, ax\nmov bx, {}\nmov bp, {}\nmov sp, {}\nmov si, {}\nmov di, {}\nmov cx, 3\nmov ax, 0x1234\n{}\nprint reg\n",
+        es, ss, ds, r, r, r, x, x, op
+    )
+}
+
 const PARSER_ENUM_CHUNK: usize = 40;
 
 pub fn parser_enum_cases() -> u64 {
@@ -405,6 +434,15 @@ pub fn make_case(seed: u64, run: u64, thorough: bool, _stats: &mut Stats) -> Opt
         return Some(c);
     }
     let run = run - nxo;
+    // ---- enumerated part 0d: one memory-touching instruction each, segments and pointers at the edges
+    let nxa = extreme_addressing_cases();
+    if run < nxa {
+        let src = extreme_addressing_program(run as usize);
+        let mut c = storage_case(seed, run_orig, src.into_bytes(), vec!["extreme_addressing".to_owned()], false);
+        c.config = "enumerated_extreme_addressing".to_owned();
+        return Some(c);
+    }
+    let run = run - nxa;
     let ex = examples();
     // ---- enumerated part 1: truncation points (identical for all seeds)
     let mut i = run;
